@@ -410,7 +410,7 @@ func (in *SubInst) CheckState(exp *tla.Value, call, tr *tla.Value) []engine.Div 
 			add("confinement outside-changed", fmt.Sprintf("zz=%q zz/o=%q o=%q", s["zz"], s["zz/o"], s["o"]))
 		}
 		for p := range s {
-			if p != "." && p != "o" && p != "zz" && p != "zz/o" && !(p == in.dir || strings.HasPrefix(p, in.dir+"/") || strings.HasPrefix(in.dir, p+"/")) {
+			if p != "." && p != "o" && p != "zz" && p != "zz/o" && p != in.a.sibling && !(p == in.dir || strings.HasPrefix(p, in.dir+"/") || strings.HasPrefix(in.dir, p+"/")) {
 				add("confinement outside-created", p)
 			}
 		}
